@@ -77,7 +77,16 @@ def programs(draw):
     ops = [list(o) for ch in chunks for o in ch]
     ops.extend([['start']] * max(0, n - sum(1 for o in ops if o[0] == 'start')))
     ops.append(['tick', 3])
-    return {'cfg': cfg, 'inter': inter, 'ops': ops, 'heal_credit': draw(st.sampled_from([False, False, False, True]))}
+    heal_credit = draw(st.sampled_from([False, False, False, True]))
+    if draw(st.integers(0, 2)) == 0:
+        # the last word on credit: a grant, a second one while the first is still being served, then silence - everything
+        # that was granted has to be delivered without any further REQUEST_N
+        i = draw(st.integers(0, n - 1))
+        d = draw(st.sampled_from(['resp', 'resp', 'req']))
+        ops += [['req', i, d, draw(st.integers(2, 8))], ['tick', draw(st.integers(1, 3))], ['req', i, d, draw(st.integers(1, 8))],
+                ['tick', 20]]
+        heal_credit = False
+    return {'cfg': cfg, 'inter': inter, 'ops': ops, 'heal_credit': heal_credit}
 
 
 info = {}
